@@ -413,6 +413,18 @@ func (x *Exec) safeCond(cond string, reach string, pos token.Pos, what string) {
 		Name: fmt.Sprintf("%s#safe.%s@L%d", shortFn(x.root), what, x.line(pos))})
 }
 
+func sortOfVal(x *Exec, v SVal) string {
+	if v.ghostSort != "" {
+		return v.ghostSort
+	}
+	if v.Typ != nil {
+		if ls := x.eng.layout(v.Typ); len(ls) == 1 {
+			return ls[0].Sort
+		}
+	}
+	return "Int"
+}
+
 func shortFn(fn *ssa.Function) string {
 	s := fn.String()
 	s = strings.ReplaceAll(s, ModPath+"/pkg/", "")
@@ -457,6 +469,15 @@ func (x *Exec) VerifyRoot() ([]*Obligation, error) {
 				return nil, fmt.Errorf("%s:%d: %v", c.File, c.Line, err)
 			}
 			x.sc.Assume(reach, t)
+		}
+		for _, pc := range x.rootC.Probes {
+			v, err := env.evalRV(pc.E)
+			if err != nil {
+				return nil, fmt.Errorf("%s:%d: probe %s: %v", pc.File, pc.Line, pc.Label, err)
+			}
+			if len(v.L) == 1 {
+				x.entryProbes = append(x.entryProbes, Probe{Name: pc.Label, Term: x.sc.Define("probe", sortOfVal(x, v), v.L[0])})
+			}
 		}
 		x.addObl(&Obligation{Kind: "cover", Label: "entry", Pos: x.pos(fn.Pos()), Reach: "true", Goal: "false", ExpectSat: true,
 			Name: fmt.Sprintf("%s#cover.entry", shortFn(fn))})
